@@ -53,6 +53,21 @@ def text_ambiguous(t, inp):
     return False
 
 
+def respell_numbers(text, rng):
+    """Other valid JSON spellings of the same numbers (json.dumps always writes 1e+16 / 25000000000.0)."""
+    import re
+
+    r = rng.random()
+    if r < 0.4:
+        return text
+    # only numbers in value position (after ': ', ', ' or '['), never text inside strings
+    pre, post = r"(?:(?<=: )|(?<=, )|(?<=\[))", r"(?=[,\]}])"
+    text = re.sub(pre + r"(-?\d(?:\.\d+)?)e\+(\d+)" + post, r"\1e\2" if r < 0.7 else r"\1E\2", text)
+    text = re.sub(pre + r"25000000000\.0" + post, "25e9" if r < 0.7 else "2.5E10", text)
+    text = re.sub(pre + r"123456789\.125" + post, "1.23456789125e8", text)
+    return text
+
+
 def run_channels(ctx, spec, p, inputs, workdir, n, skip_text=()):
     """-> dict channel -> Outcome"""
     nested = P.nest(inputs)
@@ -66,7 +81,7 @@ def run_channels(ctx, spec, p, inputs, workdir, n, skip_text=()):
         outs["object.namespace"] = call(p.parse_object, ns)
     except Exception:
         pass
-    text = json.dumps(nested, ensure_ascii=False)
+    text = respell_numbers(json.dumps(nested, ensure_ascii=False), ctx.case_rng(n, "respell"))
     outs["string.nested"] = call(p.parse_string, text)
     outs["string.dotted"] = call(p.parse_string, json.dumps(inputs, ensure_ascii=False))
     path = os.path.join(workdir, f"c{n % 30}.json")
@@ -214,7 +229,7 @@ def case_modes(ctx, i, rng):
             inputs[k] = nm[0]
     if not inputs:
         return
-    text = json.dumps(P.nest(inputs), ensure_ascii=rng.random() < 0.5)
+    text = respell_numbers(json.dumps(P.nest(inputs), ensure_ascii=rng.random() < 0.5), rng)
     has_dollar = "${" in text
     outs = {}
     for mode in ("yaml", "json", "jsonnet", "omegaconf"):
@@ -244,6 +259,8 @@ def case_modes(ctx, i, rng):
             ctx.observe("escape (C03)", o.brief())
             continue
         cls = "+".join(sorted({classify_string(x) for x in _strings(inputs)} - {"plain"})) or "no-hostile-string"
+        if any(ch in text for ch in "\x85\u2028\u2029\ufeff"):
+            cls = "unicode-break"
         if "\\ud8" in text or "\\ud9" in text or "\\uda" in text or "\\udb" in text:
             cls = "nonbmp-escape"
         if o.accepted != ref.accepted:
@@ -253,6 +270,8 @@ def case_modes(ctx, i, rng):
             d = same_steps(strip_prov(ref.value, dests), strip_prov(o.value, dests))
             if d:
                 vcls = differing_value_class(strip_prov(ref.value, dests), d[0])
+                if cls == "unicode-break" and vcls.startswith("str:"):
+                    vcls = "str:unicode-break"
                 ctx.violation("modes", f"value-differs/{name.split('.')[0]}-vs-yaml/{diff_class((steps_str(d[0]), d[1]))}/{vcls}", dict(mode=name, at=steps_str(d[0]), why=d[1], text=short(text, 600)))
                 return
 
@@ -277,6 +296,8 @@ def differing_value_class(cfg, steps):
             out.add("integral-float" if v == v and abs(v) != float("inf") and v == int(v) else "float")
         elif isinstance(v, str):
             out.add("str:" + classify_string(v))
+        elif type(v).__name__ == "Decimal" and abs(v) > 2**53:
+            out.add("bigint")
         else:
             out.add(type(v).__name__)
     if "bigint" in out:
